@@ -591,6 +591,12 @@ func (j *judgeCtx) checkConcurrency() {
 					j.add("C02.c", c.Ret, "NumConcurrency() = %d right after TunePool(%d) returned nil (want %d)", c.Val, last.Arg, want)
 				}
 			}
+			// ... and a TunePool that answers "same concurrency" leaves exactly that concurrency
+			if c.K == opSample && c.Arg == 100 && last != nil && last.Ret != 0 && last.Err == ErrSameConcurrency.Error() {
+				if want := wd.effConc(last.Arg); c.Val != want {
+					j.add("C02.c", c.Ret, "TunePool(%d) was refused with %q, but NumConcurrency() = %d right afterwards: the limit asked for is not the one in effect", last.Arg, last.Err, c.Val)
+				}
+			}
 		}
 	}
 }
